@@ -10,6 +10,7 @@ level, single-assignment locals); anything else becomes an opaque hole, and an o
 position the rules need is reported as ANALYSIS-ERROR by the rule.
 """
 import ast
+import copy
 import re
 
 from .core import AnalysisError, norm
@@ -39,325 +40,998 @@ class Elem(object):
         return '<Elem of %s%s>' % (self.base_text, '' if self.index is None else '[%s]' % self.index)
 
 
+class Coll(object):
+    """A symbolic collection: the elements of ``base_expr`` (after looking through sorted/list/set/..., local aliases and
+    identity comprehensions) that pass ``filters``.  ``elem`` is the Elem standing for one element (a pair of Elems for
+    dict items); ``elt_parts`` is the string template each element was mapped to (None: the element itself)."""
+
+    def __init__(self, base_text, base_expr, elem, filters=None, elt_parts=None, pending=None, order_ops=None):
+        self.base_text, self.base_expr, self.elem = base_text, base_expr, elem
+        self.filters = list(filters or [])
+        self.elt_parts = elt_parts
+        self.pending = list(pending or [])     # filter events of a lazy (generator) collection, not yet evaluated
+        self.order_ops = list(order_ops or [])  # sorted / set / reversed ... applied on the way: the order is not the base's
+
+    def __repr__(self):
+        return '<Coll of %s filters=%r>' % (self.base_text, [f[:3] for f in self.filters])
+
+
+class Tmpl(object):
+    """A string value: list of parts (str | Sym | Elem)."""
+
+    def __init__(self, parts):
+        self.parts = list(parts)
+
+    def __repr__(self):
+        return '<Tmpl %r>' % (self.parts,)
+
+
+class Ex(object):
+    """A value we only know as an expression over the function's parameters (locals substituted)."""
+
+    def __init__(self, node):
+        self.node = node
+        self.text = norm(node)
+
+    def __repr__(self):
+        return '<Ex %s>' % self.text
+
+
+class SDict(object):
+    def __init__(self, items=None, comp=None):
+        self.items = dict(items or {})    # constant key -> value
+        self.comp = comp                  # Coll of (key Elem, value Elem) pairs for {k: v for ...}
+
+
+class SList(object):
+    def __init__(self, items, kind='list'):
+        self.items, self.kind = list(items), kind
+
+
+class LoopSeq(object):
+    """The strings a depth loop (``for d in range(len(funcs))``) appends to one list: ``items`` is what one iteration
+    appends (evaluated for a symbolic iteration, see TemplateEval._depth_loop); the whole list is those items for
+    d = 0, 1, ... in order -- or, with ``rev``, the reverse of that."""
+
+    def __init__(self, loop, items, rev=False):
+        self.loop, self.items, self.rev = loop, list(items), rev
+
+
+class LoopCat(object):
+    def __init__(self, seqs):
+        self.seqs = list(seqs)
+
+
+class _Return(Exception):
+    pass
+
+
+class _Resolver(ast.NodeTransformer):
+    def __init__(self, ev):
+        self.ev = ev
+        self.shadow = set()
+
+    def visit_Name(self, node):
+        if isinstance(node.ctx, ast.Load) and node.id not in self.shadow and node.id not in self.ev.comp_env:
+            v = self.ev.env.get(node.id)
+            if isinstance(v, Ex):
+                return ast.copy_location(copy.deepcopy(v.node), node)
+        return node
+
+    def visit_BinOp(self, node):
+        node = self.generic_visit(node)
+        if isinstance(node.op, ast.Add):
+            for a, b in ((node.left, node.right), (node.right, node.left)):
+                if isinstance(b, ast.Constant) and b.value == 0 and isinstance(b.value, int) and not isinstance(b.value, bool):
+                    return a
+        return node
+
+    def _comp(self, node):
+        saved = set(self.shadow)
+        for g in node.generators:
+            self.shadow |= set(n.id for n in ast.walk(g.target) if isinstance(n, ast.Name))
+        node = self.generic_visit(node)
+        self.shadow = saved
+        return node
+
+    visit_ListComp = visit_SetComp = visit_GeneratorExp = visit_DictComp = _comp
+
+    def visit_Lambda(self, node):
+        saved = set(self.shadow)
+        self.shadow |= set(a.arg for a in node.args.posonlyargs + node.args.args + node.args.kwonlyargs)
+        node = self.generic_visit(node)
+        self.shadow = saved
+        return node
+
+
+_WRAPPERS = ('sorted', 'list', 'tuple', 'set', 'frozenset', 'reversed', 'iter')
+_REORDER = ('sorted', 'set', 'frozenset', 'reversed')
+_FMT_FIELD = re.compile(r'(\{\{|\}\}|\{[^{}]*\})')
+
+
 class TemplateEval(object):
-    def __init__(self, repo, fi):
+    """Symbolic execution of a code-generating function.
+
+    The body is executed statement by statement (straight-line code, guard clauses, ``if p is None: p = ...`` defaults);
+    strings are evaluated to templates, lists of strings / dict literals / tuples are tracked as such, comprehensions
+    over an iterable become symbolic collections with their filters, and every other value is an expression over the
+    parameters in which local aliases have been substituted (``cur_func`` -> ``funcs[0]``).  Calls of helper
+    functions of the same module are executed the same way (bounded depth); a call of the function itself is a
+    ``rec`` hole.  ``events`` lists, in execution order, the scope-set updates (``X.update(Y)``), the evaluations of
+    membership filters and the recursive calls: ordering rules are decided on that trace.
+    Loops and other control flow are outside the modelled subset (AnalysisError)."""
+
+    WATCH = ('compile_code',)
+
+    def __init__(self, repo, fi, env=None, parent=None):
         self.repo, self.fi, self.mod = repo, fi, fi.mod
+        self.parent = parent
+        self.root = parent.root if parent is not None else self
+        self.depth = parent.depth + 1 if parent is not None else 0
         self.params = set(fi.params())
-        self._local_cache = {}
-        self.comp_env = {}     # comprehension variable -> Elem / tuple of Elem
+        self.env = {}
+        if env is None:
+            for p in fi.params():
+                self.env[p] = Ex(ast.Name(id=p, ctx=ast.Load()))
+        else:
+            self.env.update(env)
+        self.comp_env = {}
+        self.events = parent.events if parent is not None else []
+        self.sinks = parent.sinks if parent is not None else []
+        self.guards = []       # (If statement, test) of guard clauses passed on the way
+        self.inits = {}        # name -> (If statement, value node) of ``if name is None: name = value``
+        self.returns = []      # (Return statement, value) in execution order: guard returns first, the main one last
+        self.notes = []
+        self._done = False
+        self._stop_at = None
+        self._loop_guard = None     # during the symbolic iteration of a depth loop: names the body binds / has bound so far
+        self._loop_rec = None
 
-    # -- locals --------------------------------------------------------------
-    def local_def(self, name):
-        """The single value expression assigned to a local (last textual assignment wins when the
-        name is re-bound from itself, e.g. ``inner_args = ', '.join(... inner_args ...)``)."""
-        vals = [(st, v, idx) for st, v, idx in assigned_value(self.fi.node, name) if idx is None and isinstance(st, ast.Assign)]
-        return vals
-
-    def resolve_local(self, name, at_line=None):
-        vals = self.local_def(name)
-        if not vals:
-            return None
-        if at_line is not None:
-            before = [x for x in vals if x[0].lineno < at_line]
-            if before:
-                return before[-1]
-        return vals[-1]
-
-    # -- evaluation ------------------------------------------------------------
+    # -- compat API -----------------------------------------------------------------------------------------
     def ev(self, e, at_line=None, depth=0):
-        """-> list of parts (str | Sym | Elem)."""
-        if depth > 30:
-            return [Sym('expr', expr=e)]
-        at = getattr(e, 'lineno', at_line) or at_line
+        """Template parts of expression ``e`` of the function body, evaluated where it stands (a fresh symbolic run of
+        the statements before the one containing ``e``)."""
+        te = TemplateEval(self.repo, self.fi)
+        te._stop_at = e
+        te.env_at = None
+        te.run()
+        self.last = te
+        if te.env_at is not None:
+            return te.env_at
+        return te.to_parts(te.eval(e))
+
+    # -- running -----------------------------------------------------------------------------------------------
+    def run(self):
+        if self._done:
+            return self
+        self._done = True
+        try:
+            self.exec_block(self.fi.node.body)
+        except _Return:
+            pass
+        return self
+
+    def main_return(self):
+        """(statement, value) of the return reached when no guard clause fires."""
+        if not self.returns:
+            return None
+        return self.returns[-1]
+
+    def exec_block(self, stmts):
+        for st in stmts:
+            self.exec_stmt(st)
+
+    def _contains_stop(self, st):
+        return self._stop_at is not None and any(n is self._stop_at for n in ast.walk(st))
+
+    def exec_stmt(self, st):
+        if self._contains_stop(st) and not isinstance(st, (ast.If, ast.With, ast.Try)):
+            self.env_at = self.to_parts(self.eval(self._stop_at))
+            raise _Return()
+        if isinstance(st, ast.Expr):
+            v = st.value
+            if isinstance(v, ast.Constant):
+                return
+            if isinstance(v, ast.Call) and isinstance(v.func, ast.Attribute) and self._method_stmt(st, v):
+                return
+            self.eval(v)
+            return
+        if isinstance(st, ast.Assign):
+            if len(st.targets) == 1 and isinstance(st.targets[0], ast.Name) and self._union_update(st, st.targets[0].id, st.value):
+                return
+            val = self.eval(st.value)
+            for t in st.targets:
+                self.bind(t, val)
+            return
+        if isinstance(st, ast.AnnAssign):
+            if st.value is not None:
+                self.bind(st.target, self.eval(st.value))
+            return
+        if isinstance(st, ast.AugAssign):
+            if isinstance(st.target, ast.Name) and isinstance(st.op, ast.BitOr) and isinstance(self.env.get(st.target.id), Ex) and \
+                    self.env[st.target.id].text == st.target.id:
+                self._update_event(st, st.target.id, st.value, 'update')      # s |= t: in place, like s.update(t)
+                return
+            if isinstance(st.target, ast.Name) and isinstance(st.op, ast.Add):
+                cur = self.env.get(st.target.id)
+                add = self.eval(st.value)
+                if isinstance(cur, SList) and isinstance(add, SList):
+                    cur.items.extend(add.items)
+                    return
+                if isinstance(cur, (Tmpl, Elem)) or isinstance(add, (Tmpl, Elem)):
+                    self.env[st.target.id] = Tmpl(self.to_parts(cur) + self.to_parts(add))
+                    return
+            if isinstance(st.target, ast.Name):
+                self.env[st.target.id] = Ex(self.resolve(ast.BinOp(left=ast.Name(id=st.target.id, ctx=ast.Load()), op=st.op, right=st.value)))
+            return
+        if isinstance(st, ast.Return):
+            val = self.eval(st.value) if st.value is not None else Ex(ast.Constant(value=None))
+            if isinstance(val, Tmpl) and any(isinstance(p, Sym) and p.kind == 'loop' for p in val.parts):
+                val = self._nest(val, st)
+            self.returns.append((st, val))
+            raise _Return()
+        if isinstance(st, ast.Raise):
+            raise _Return()
+        if isinstance(st, ast.If):
+            return self._if(st)
+        if isinstance(st, (ast.Pass, ast.Import, ast.ImportFrom, ast.Global, ast.Nonlocal, ast.Assert, ast.Delete)):
+            return
+        if isinstance(st, (ast.FunctionDef, ast.AsyncFunctionDef, ast.ClassDef)):
+            self.env[st.name] = Ex(ast.Name(id=st.name, ctx=ast.Load()))
+            return
+        if isinstance(st, ast.With):
+            for it in st.items:
+                if it.optional_vars is not None:
+                    self.bind(it.optional_vars, Ex(self.resolve(it.context_expr)))
+            return self.exec_block(st.body)
+        if isinstance(st, ast.For) and self.parent is None and self._loop_rec is None:
+            return self._depth_loop(st)
+        if isinstance(st, (ast.For, ast.While, ast.AsyncFor)):
+            raise AnalysisError('%s: loop in a code generator (%s) -- symbolic template evaluation follows straight-line '
+                                'builders only' % (self.fi.qualname, norm(st)[:60]))
+        raise AnalysisError('%s: statement outside the modelled subset of code generators: %s' % (self.fi.qualname, norm(st)[:60]))
+
+    def _depth_loop(self, st):
+        """``for d in range(len(funcs)): ...`` in place of the recursion over ``funcs[1:]``.
+
+        The loop is executed for one *symbolic* iteration in the frame of the equivalent recursive activation: inside
+        the body ``<list param>[d]`` is that activation's ``<list param>[0]`` and ``<level param> + d`` its
+        ``<level param>``.  That reading is valid when the index occurs in no other way, the indexed / shifted
+        parameters are not used otherwise in the body, no local is carried between iterations (every local the body
+        binds is bound before it is read) and the lists the body appends to start out empty.  The lists become
+        LoopSeq values; ``''.join(defs + tails[::-1])`` then is, by induction on the number of functions, the nested
+        text ``defs(0) + <the same for funcs[1:]> + tails(0)`` (see _nest)."""
+        def fail(why):
+            return AnalysisError('%s: loop in a code generator (%s) -- %s' % (self.fi.qualname, norm(st)[:50], why))
+        if st.orelse or not isinstance(st.target, ast.Name):
+            raise fail('symbolic template evaluation follows straight-line builders and depth loops only')
+        d = st.target.id
+        it = st.iter
+        ok = isinstance(it, ast.Call) and isinstance(it.func, ast.Name) and it.func.id == 'range' and len(it.args) == 1 and not it.keywords
+        ln = it.args[0] if ok else None
+        ok = ok and isinstance(ln, ast.Call) and isinstance(ln.func, ast.Name) and ln.func.id == 'len' and len(ln.args) == 1
+        seqp = norm(self.resolve(ln.args[0])) if ok else None
+        if not ok or seqp not in self.params:
+            raise fail('only "for d in range(len(<list parameter>))" can be read as the recursion over its tail')
+        for s_ in st.body:
+            for n in ast.walk(s_):
+                if isinstance(n, (ast.Break, ast.Continue, ast.Return, ast.For, ast.While, ast.Try, ast.With, ast.Yield, ast.YieldFrom,
+                                  ast.FunctionDef, ast.Lambda, ast.Global, ast.Nonlocal, ast.NamedExpr)):
+                    raise fail('the loop body is not straight-line code (%s)' % type(n).__name__)
+        par = {}
+        for s_ in st.body:
+            for p_ in ast.walk(s_):
+                for ch in ast.iter_child_nodes(p_):
+                    par[ch] = p_
+        indexed, shifted = set(), set()
+        names = [n for s_ in st.body for n in ast.walk(s_) if isinstance(n, ast.Name)]
+        for n in names:
+            if n.id != d:
+                continue
+            p_ = par.get(n)
+            if not isinstance(n.ctx, ast.Load):
+                raise fail('the loop index is re-bound in the body')
+            if isinstance(p_, ast.Subscript) and p_.slice is n and isinstance(p_.value, ast.Name) and p_.value.id in self.params and \
+                    isinstance(p_.ctx, ast.Load):
+                indexed.add(p_.value.id)
+            elif isinstance(p_, ast.BinOp) and isinstance(p_.op, ast.Add) and \
+                    isinstance(p_.right if p_.left is n else p_.left, ast.Name) and (p_.right if p_.left is n else p_.left).id in self.params:
+                shifted.add((p_.right if p_.left is n else p_.left).id)
+            else:
+                raise fail('the loop index is used other than as <list parameter>[d] or <level parameter> + d')
+        if seqp not in indexed or (indexed & shifted):
+            raise fail('the loop does not index the list it is bounded by')
+        for n in names:
+            if n.id in indexed or n.id in shifted:
+                p_ = par.get(n)
+                good = (n.id in indexed and isinstance(p_, ast.Subscript) and p_.value is n and isinstance(p_.slice, ast.Name) and p_.slice.id == d) or \
+                    (n.id in shifted and isinstance(p_, ast.BinOp) and isinstance(p_.op, ast.Add) and
+                     isinstance(p_.right if p_.left is n else p_.left, ast.Name) and (p_.right if p_.left is n else p_.left).id == d)
+                if not good or not isinstance(n.ctx, ast.Load):
+                    raise fail('parameter %s is used in the body other than through the loop index' % n.id)
+        for p_ in indexed | shifted:
+            v = self.env.get(p_)
+            if not (isinstance(v, Ex) and isinstance(v.node, ast.Name) and v.node.id == p_):
+                raise fail('parameter %s is re-bound before the loop' % p_)
+        lists = dict((k, v) for k, v in self.env.items() if isinstance(v, SList) and v.kind == 'list')
+        stored = set(n.id for n in names if isinstance(n.ctx, (ast.Store, ast.Del)))
+        if stored & set(self.params):
+            raise fail('the body re-binds a parameter')
+        before = dict((k, len(v.items)) for k, v in lists.items())
+        self._loop_guard = {'stored': stored, 'assigned': set()}
+        self.env[d] = Ex(ast.Constant(value=0))
+        try:
+            self.exec_block(st.body)
+        finally:
+            self._loop_guard = None
+        self.env[d] = Ex(ast.Name(id='<last %s>' % d, ctx=ast.Load()))
+        for k_ in stored:
+            self.env[k_] = Ex(ast.Name(id='<%s of the last iteration>' % k_, ctx=ast.Load()))
+        for k, v in lists.items():
+            if self.env.get(k) is not v:
+                raise fail('list %s is re-bound in the body' % k)
+            if len(v.items) > before[k]:
+                if before[k]:
+                    raise fail('list %s is not empty when the loop starts' % k)
+                self.env[k] = LoopSeq(st, v.items)
+        ps = self.fi.params()
+        argmap = dict((p_, '%s[1:]' % p_ if p_ in indexed else ('%s + 1' % p_ if p_ in shifted else p_)) for p_ in ps)
+        self.events.append({'kind': 'rec', 'node': st, 'argmap': argmap, 'owner': self.fi.qualname})
+        self._loop_rec = Sym('rec', call=st, argmap=argmap)
+
+    def _nest(self, val, st):
+        """``''.join(defs + tails[::-1])`` over the LoopSeqs of one depth loop -> defs(0) + <rec> + reversed(tails(0))."""
+        loops = [p for p in val.parts if isinstance(p, Sym) and p.kind == 'loop']
+        ok = len(val.parts) == 2 and len(loops) == 2 and not loops[0].seq.rev and loops[1].seq.rev and \
+            loops[0].seq.loop is loops[1].seq.loop and self._loop_rec is not None and loops[0].seq is not loops[1].seq
+        if not ok:
+            raise AnalysisError('%s: the strings built by the depth loop are not assembled as <heads in order> + <tails reversed> '
+                                '(the nested form of the recursive generator)' % self.fi.qualname)
+        out = []
+        for x in loops[0].seq.items:
+            out.extend(self.to_parts(x))
+        out.append(self._loop_rec)
+        for x in reversed(loops[1].seq.items):
+            out.extend(self.to_parts(x))
+        return Tmpl(out)
+
+    def _terminates(self, stmts):
+        return bool(stmts) and isinstance(stmts[-1], (ast.Return, ast.Raise))
+
+    def _if(self, st):
+        t = st.test
+        # ``if p is None: p = <default>``  (also ``p = <default> if p is None else p``, which the loader spells as if/else)
+        def one_assign(block):
+            if len(block) == 1 and isinstance(block[0], ast.Assign) and len(block[0].targets) == 1 and isinstance(block[0].targets[0], ast.Name):
+                return block[0].targets[0].id, block[0].value
+            return None, None
+        if isinstance(t, ast.Compare) and len(t.ops) == 1 and isinstance(t.left, ast.Name) and isinstance(t.comparators[0], ast.Constant) \
+                and t.comparators[0].value is None and isinstance(t.ops[0], (ast.Is, ast.Eq, ast.IsNot, ast.NotEq)):
+            name = t.left.id
+            none_branch, other = (st.body, st.orelse) if isinstance(t.ops[0], (ast.Is, ast.Eq)) else (st.orelse, st.body)
+            n1, v1 = one_assign(none_branch)
+            n2, v2 = one_assign(other) if other else (name, ast.Name(id=name, ctx=ast.Load()))
+            if n1 == name and n2 == name and isinstance(v2, ast.Name) and v2.id == name and isinstance(self.env.get(name), Ex) and \
+                    self.env[name].text == name:
+                self.inits[name] = (st, v1)
+                return
+        if self._terminates(st.body) and not self._contains_stop(st):
+            # guard clause: the rest of the function is the other path
+            sub = TemplateEval(self.repo, self.fi, env=dict(self.env), parent=self)
+            sub.events, sub.sinks = [], []
+            try:
+                sub.exec_block(st.body)
+            except _Return:
+                pass
+            except AnalysisError:
+                pass
+            self.guards.append((st, t, [r for r in sub.returns]))
+            if st.orelse:
+                self.exec_block(st.orelse)
+            return
+        if self._terminates(st.orelse) and not st.body == [] and not self._contains_stop(st):
+            sub = TemplateEval(self.repo, self.fi, env=dict(self.env), parent=self)
+            sub.events, sub.sinks = [], []
+            try:
+                sub.exec_block(st.orelse)
+            except (_Return, AnalysisError):
+                pass
+            self.guards.append((st, ast.UnaryOp(op=ast.Not(), operand=t), [r for r in sub.returns]))
+            self.exec_block(st.body)
+            return
+        # a conditional that binds nothing and only makes plain calls (``if verbose: print(code)``)
+        stores = set()
+        for n in ast.walk(st):
+            if isinstance(n, ast.Name) and isinstance(n.ctx, (ast.Store, ast.Del)):
+                stores.add(n.id)
+        muts = [n for n in ast.walk(st) if isinstance(n, ast.Call) and isinstance(n.func, ast.Attribute) and
+                isinstance(n.func.value, ast.Name) and n.func.value.id in self.env]
+        if self._contains_stop(st):
+            raise AnalysisError('%s: the analysed expression sits inside a conditional (%s)' % (self.fi.qualname, norm(t)[:60]))
+        if not stores and not muts:
+            return
+        raise AnalysisError('%s: conditional construction in a code generator (if %s) is outside the modelled subset'
+                            % (self.fi.qualname, norm(t)[:60]))
+
+    def _update_event(self, st, name, arg, kind):
+        a = arg
+        while isinstance(a, ast.Call) and isinstance(a.func, ast.Name) and a.func.id in ('set', 'frozenset', 'list', 'tuple') and len(a.args) == 1:
+            a = a.args[0]
+        self.events.append({'kind': kind, 'target': name, 'arg': norm(self.resolve(a)), 'node': st, 'stmt': st, 'owner': self.fi.qualname,
+                            'rebinds': isinstance(st, ast.Assign)})
+
+    def _union_update(self, st, name, value):
+        """``s = s | t`` / ``s = s.union(t)`` for a set we only know by name: the set gains t (a new object is bound)."""
+        cur = self.env.get(name)
+        if not (isinstance(cur, Ex) and cur.text == name):
+            return False
+        if isinstance(value, ast.BinOp) and isinstance(value.op, ast.BitOr):
+            for a, b in ((value.left, value.right), (value.right, value.left)):
+                if isinstance(a, ast.Name) and a.id == name:
+                    self._update_event(st, name, b, 'update')
+                    return True
+        if isinstance(value, ast.Call) and isinstance(value.func, ast.Attribute) and value.func.attr == 'union' and \
+                isinstance(value.func.value, ast.Name) and value.func.value.id == name and len(value.args) == 1 and not value.keywords:
+            self._update_event(st, name, value.args[0], 'update')
+            return True
+        return False
+
+    def _method_stmt(self, st, call):
+        """``name.method(...)`` as a statement; True when handled."""
+        f = call.func
+        if not isinstance(f.value, ast.Name):
+            return False
+        cur = self.env.get(f.value.id)
+        if isinstance(cur, SList):
+            if f.attr == 'append' and len(call.args) == 1:
+                cur.items.append(self.eval(call.args[0]))
+                return True
+            if f.attr == 'extend' and len(call.args) == 1:
+                v = self.eval(call.args[0])
+                if isinstance(v, SList):
+                    cur.items.extend(v.items)
+                    return True
+                raise AnalysisError('%s: %s.extend(%s) with a value that is not a known list' % (self.fi.qualname, f.value.id, norm(call.args[0])))
+            if f.attr == 'insert' and len(call.args) == 2 and isinstance(call.args[0], ast.Constant) and isinstance(call.args[0].value, int):
+                cur.items.insert(call.args[0].value, self.eval(call.args[1]))
+                return True
+            if f.attr == 'reverse' and not call.args:
+                cur.items.reverse()
+                return True
+            raise AnalysisError('%s: list method %s.%s() outside the modelled subset' % (self.fi.qualname, f.value.id, f.attr))
+        if isinstance(cur, SDict):
+            if f.attr == 'update':
+                for a in call.args:
+                    v = self.eval(a)
+                    if not isinstance(v, SDict) or v.comp is not None:
+                        raise AnalysisError('%s: %s.update(%s) with an unknown mapping' % (self.fi.qualname, f.value.id, norm(a)))
+                    cur.items.update(v.items)
+                for k in call.keywords:
+                    if k.arg is None:
+                        raise AnalysisError('%s: %s.update(**...)' % (self.fi.qualname, f.value.id))
+                    cur.items[k.arg] = self.eval(k.value)
+                return True
+            if f.attr == 'setdefault' and len(call.args) == 2 and isinstance(call.args[0], ast.Constant):
+                cur.items.setdefault(call.args[0].value, self.eval(call.args[1]))
+                return True
+            raise AnalysisError('%s: dict method %s.%s() outside the modelled subset' % (self.fi.qualname, f.value.id, f.attr))
+        if isinstance(cur, Ex) or cur is None:
+            if f.attr in ('update', 'add', 'discard', 'remove', 'difference_update', 'intersection_update', 'clear', 'append', 'extend'):
+                args = [self.resolve(a) for a in call.args]
+                self.events.append({'kind': f.attr, 'target': norm(self.resolve(f.value)), 'arg': norm(args[0]) if args else '',
+                                    'node': call, 'stmt': st, 'owner': self.fi.qualname})
+                return True
+        return False
+
+    def bind(self, target, val):
+        if isinstance(target, ast.Name):
+            self.env[target.id] = val
+            if self._loop_guard is not None:
+                self._loop_guard['assigned'].add(target.id)
+            return
+        if isinstance(target, (ast.Tuple, ast.List)):
+            if isinstance(val, SList) and len(val.items) == len(target.elts) and not any(isinstance(t, ast.Starred) for t in target.elts):
+                for t, v in zip(target.elts, val.items):
+                    self.bind(t, v)
+                return
+            base = val.node if isinstance(val, Ex) else None
+            for i, t in enumerate(target.elts):
+                if isinstance(t, ast.Starred):
+                    t = t.value
+                if base is not None:
+                    self.bind(t, Ex(ast.Subscript(value=copy.deepcopy(base), slice=ast.Constant(value=i), ctx=ast.Load())))
+                else:
+                    self.bind(t, Ex(ast.Name(id='<unpacked %d>' % i, ctx=ast.Load())))
+            return
+        # attribute / subscript stores do not bind locals
+        return
+
+    # -- expressions ---------------------------------------------------------------------------------------------
+    def resolve(self, node):
+        """Copy of ``node`` with locals that name plain expressions substituted."""
+        return ast.fix_missing_locations(_Resolver(self).visit(copy.deepcopy(node)))
+
+    def is_stringy(self, v):
+        return isinstance(v, (Tmpl, Elem))
+
+    def to_parts(self, v):
+        if isinstance(v, Tmpl):
+            return list(v.parts)
+        if isinstance(v, Elem):
+            return [v]
+        if isinstance(v, Ex):
+            n = v.node
+            if isinstance(n, ast.Constant):
+                if isinstance(n.value, str):
+                    return [n.value]
+                return [Sym('const', value=n.value)]
+            if isinstance(n, ast.Name) and n.id in self.root.params:
+                return [Sym('param', name=n.id)]
+            return [Sym('expr', expr=n)]
+        if isinstance(v, SList) and v.kind == 'tuple':
+            return [Sym('tuple', items=[self.to_parts(x) for x in v.items])]
+        if isinstance(v, tuple):
+            return [Sym('tuple', items=[self.to_parts(x) for x in v])]
+        if v is None:
+            return [Sym('expr', expr=ast.Constant(value=None))]
+        return [Sym('expr', expr=ast.Name(id='<%s>' % type(v).__name__, ctx=ast.Load()))]
+
+    def eval(self, e):
         if isinstance(e, ast.Constant):
             if isinstance(e.value, str):
-                return [e.value]
-            return [Sym('const', value=e.value)]
+                return Tmpl([e.value])
+            return Ex(e)
         if isinstance(e, ast.Name):
             if e.id in self.comp_env:
-                v = self.comp_env[e.id]
-                return [v] if not isinstance(v, tuple) else [Sym('tuple', items=v)]
-            d = self.resolve_local(e.id, at)
-            if d is not None:
-                st, v, idx = d
-                return self.ev(v, st.lineno, depth + 1)
-            if e.id in self.params:
-                return [Sym('param', name=e.id)]
+                return self.comp_env[e.id]
+            g = self.root._loop_guard
+            if g is not None and e.id in g['stored'] and e.id not in g['assigned']:
+                raise AnalysisError('%s: loop in a code generator: local %s is carried from one iteration to the next'
+                                    % (self.root.fi.qualname, e.id))
+            if e.id in self.env:
+                return self.env[e.id]
             try:
                 val = self.repo.fold(e, self.mod)
                 if isinstance(val, str):
-                    return [val]
+                    return Tmpl([val])
             except Exception:
                 pass
-            return [Sym('expr', expr=e)]
-        if isinstance(e, ast.BinOp):
-            if isinstance(e.op, ast.Add):
-                return self.ev(e.left, at, depth + 1) + self.ev(e.right, at, depth + 1)
-            if isinstance(e.op, ast.Mult):
-                l = self.ev(e.left, at, depth + 1)
-                if len(l) == 1 and isinstance(l[0], str):
-                    return [Sym('repeat', unit=l[0], count=e.right)]
-                r = self.ev(e.right, at, depth + 1)
-                if len(r) == 1 and isinstance(r[0], str):
-                    return [Sym('repeat', unit=r[0], count=e.left)]
-            if isinstance(e.op, ast.Mod):
-                l = self.ev(e.left, at, depth + 1)
-                if all(isinstance(p, str) for p in l):
-                    fmt = ''.join(l)
-                    if isinstance(e.right, ast.Tuple):
-                        ops = [self.ev(x, at, depth + 1) for x in e.right.elts]
-                    else:
-                        r = self.ev(e.right, at, depth + 1)
-                        if len(r) == 1 and isinstance(r[0], Sym) and r[0].kind == 'tuple':
-                            ops = [[x] for x in r[0].items]
-                        else:
-                            ops = [r]
-                    pieces = re.split(r'(%[srd])', fmt)
-                    out, i = [], 0
-                    for p in pieces:
-                        if p in ('%s', '%r', '%d'):
-                            if i >= len(ops):
-                                return [Sym('expr', expr=e)]
-                            out.extend(ops[i])
-                            i += 1
-                        elif p:
-                            out.append(p.replace('%%', '%'))
-                    if i != len(ops):
-                        return [Sym('expr', expr=e)]
-                    return out
-            return [Sym('expr', expr=e)]
-        if isinstance(e, ast.Call):
-            f = e.func
-            if isinstance(f, ast.Attribute) and f.attr == 'join' and len(e.args) == 1:
-                sep = self.ev(f.value, at, depth + 1)
-                if all(isinstance(p, str) for p in sep):
-                    sep = ''.join(sep)
-                    a = e.args[0]
-                    if isinstance(a, (ast.List, ast.Tuple)):
-                        out = []
-                        for i, x in enumerate(a.elts):
-                            if i and sep:
-                                out.append(sep)
-                            out.extend(self.ev(x, at, depth + 1))
-                        return out
-                    if isinstance(a, (ast.ListComp, ast.GeneratorExp)):
-                        return [self._join_comp(sep, a, at, depth)]
-                    if isinstance(a, ast.Name):
-                        # a local list written as a literal and extended by straight-line ``.append(x)`` statements
-                        items = self.list_build(a.id, at)
-                        if items is not None:
-                            out = []
-                            for i, (x, ln) in enumerate(items):
-                                if i and sep:
-                                    out.append(sep)
-                                out.extend(self.ev(x, ln, depth + 1))
-                            return out
-                    return [Sym('join', sep=sep, elt=None, iter=a, filters=[], base=self.base_of(a, at))]
-            if isinstance(f, ast.Attribute) and f.attr == 'format' and not any(isinstance(x, ast.Starred) for x in e.args):
-                t = self.ev(f.value, at, depth + 1)
-                if all(isinstance(p, str) for p in t):
-                    fmt = ''.join(t)
-                    kw = dict((k.arg, self.ev(k.value, at, depth + 1)) for k in e.keywords if k.arg)
-                    for k in e.keywords:
-                        if k.arg is None:
-                            # ``**fields`` with fields a dict display / dict(k=v) (possibly a single-assignment local)
-                            more = self._str_keyed_dict(k.value, at)
-                            if more is None:
-                                return [Sym('expr', expr=e)]
-                            for name, (v, ln) in more.items():
-                                kw.setdefault(name, self.ev(v, ln, depth + 1))
-                    pos = [self.ev(x, at, depth + 1) for x in e.args]
-                    out = []
-                    auto = 0
-                    for p in re.split(r'(\{[A-Za-z_0-9]*\})', fmt):
-                        name = p[1:-1] if len(p) >= 2 and p[0] == '{' and p[-1] == '}' else None
-                        if name is not None and name in kw:
-                            out.extend(kw[name])
-                        elif name is not None and pos and (name == '' or name.isdigit()):
-                            i = auto if name == '' else int(name)
-                            if name == '':
-                                auto += 1
-                            if i >= len(pos):
-                                return [Sym('expr', expr=e)]
-                            out.extend(pos[i])
-                        elif p:
-                            out.append(p.replace('{{', '{').replace('}}', '}'))
-                    return out
-            if isinstance(f, ast.Name):
-                if f.id == self.fi.name and f.id in self.mod.functions:
-                    return [Sym('rec', call=e)]
-                if f.id in self.mod.functions and f.id != self.fi.name:
-                    callee = self.mod.functions[f.id]
-                    rets = [s for s in stmts_of(callee.node) if isinstance(s, ast.Return)]
-                    if len(rets) == 1 and rets[0].value is not None and len(callee.node.body) <= 3:
-                        sub = TemplateEval(self.repo, callee)
-                        # bind callee params to caller argument *expressions* (by name for base tracking)
-                        ps = callee.params()
-                        sub.arg_map = dict(zip(ps, e.args))
-                        sub.caller = self
-                        sub.caller_line = at
-                        return sub.ev(rets[0].value, None, depth + 1)
-                if f.id in ('str', 'repr') and len(e.args) == 1:
-                    return self.ev(e.args[0], at, depth + 1)
-            return [Sym('expr', expr=e)]
-        if isinstance(e, ast.Subscript):
-            # kv[0] / kv[1] of a pair-shaped comprehension variable
-            if isinstance(e.value, ast.Name) and e.value.id in self.comp_env and isinstance(self.comp_env[e.value.id], tuple) \
-                    and isinstance(e.slice, ast.Constant) and isinstance(e.slice.value, int):
-                items = self.comp_env[e.value.id]
-                if 0 <= e.slice.value < len(items):
-                    return [items[e.slice.value]]
-            return [Sym('expr', expr=e)]
+            return Ex(e)
         if isinstance(e, ast.JoinedStr):
             out = []
             for v in e.values:
                 if isinstance(v, ast.Constant):
                     out.append(v.value)
                 elif isinstance(v, ast.FormattedValue):
-                    out.extend(self.ev(v.value, at, depth + 1))
-            return out
-        return [Sym('expr', expr=e)]
+                    if v.format_spec is not None:
+                        out.append(Sym('expr', expr=self.resolve(v)))
+                    else:
+                        out.extend(self.to_parts(self.eval(v.value)))
+            return Tmpl(out)
+        if isinstance(e, ast.BinOp):
+            return self._binop(e)
+        if isinstance(e, ast.Call):
+            return self._call(e)
+        if isinstance(e, ast.Subscript):
+            v = self.eval(e.value)
+            idx = e.slice
+            if isinstance(idx, ast.Constant) and isinstance(idx.value, int):
+                if isinstance(v, tuple) and -len(v) <= idx.value < len(v):
+                    return v[idx.value]
+                if isinstance(v, SList) and -len(v.items) <= idx.value < len(v.items):
+                    return v.items[idx.value]
+            if isinstance(v, SDict) and isinstance(idx, ast.Constant) and idx.value in v.items:
+                return v.items[idx.value]
+            if isinstance(v, LoopSeq) and isinstance(idx, ast.Slice) and idx.lower is None and idx.upper is None:
+                if idx.step is None:
+                    return LoopSeq(v.loop, v.items, v.rev)
+                if isinstance(idx.step, ast.UnaryOp) and isinstance(idx.step.op, ast.USub) and isinstance(idx.step.operand, ast.Constant) \
+                        and idx.step.operand.value == 1:
+                    return LoopSeq(v.loop, v.items, not v.rev)
+            if isinstance(v, SList) and isinstance(idx, ast.Slice) and idx.lower is None and idx.upper is None:
+                if idx.step is None:
+                    return SList(v.items, v.kind)
+                if isinstance(idx.step, ast.UnaryOp) and isinstance(idx.step.op, ast.USub) and isinstance(idx.step.operand, ast.Constant) \
+                        and idx.step.operand.value == 1:
+                    return SList(list(reversed(v.items)), v.kind)
+            return Ex(self.resolve(e))
+        if isinstance(e, ast.Tuple):
+            return SList([self.eval(x) for x in e.elts], 'tuple')
+        if isinstance(e, ast.List):
+            if any(isinstance(x, ast.Starred) for x in e.elts):
+                return Ex(self.resolve(e))
+            return SList([self.eval(x) for x in e.elts], 'list')
+        if isinstance(e, ast.Dict):
+            if all(isinstance(k, ast.Constant) for k in e.keys):
+                return SDict(dict((k.value, self.eval(v)) for k, v in zip(e.keys, e.values)))
+            if all(k is None or isinstance(k, ast.Constant) for k in e.keys):
+                out = {}
+                for k, v in zip(e.keys, e.values):
+                    if k is None:
+                        sub = self.eval(v)
+                        if not isinstance(sub, SDict) or sub.comp is not None:
+                            return Ex(self.resolve(e))
+                        out.update(sub.items)
+                    else:
+                        out[k.value] = self.eval(v)
+                return SDict(out)
+            return Ex(self.resolve(e))
+        if isinstance(e, ast.DictComp):
+            c = self._comp(e, pair=(e.key, e.value))
+            if c is not None:
+                return SDict(comp=c)
+            return Ex(self.resolve(e))
+        if isinstance(e, (ast.ListComp, ast.GeneratorExp, ast.SetComp)):
+            c = self._comp(e, lazy=isinstance(e, ast.GeneratorExp))
+            if c is not None:
+                return c
+            return Ex(self.resolve(e))
+        if isinstance(e, ast.Starred):
+            return self.eval(e.value)
+        return Ex(self.resolve(e))
 
-    # -- locals built in several statements -----------------------------------------
-    def list_build(self, name, at_line=None):
-        """[(element expr, line)] of a local list that is bound once to a list display in the function's top-level
-        statement sequence and afterwards only changed by top-level ``name.append(x)`` statements (every other use is a
-        read) -- the elements in order, as far as line ``at_line``.  None for any other way of building it."""
-        body = self.fi.node.body
-        defs = [(st, v, idx) for st, v, idx in assigned_value(self.fi.node, name)]
-        if len(defs) != 1 or defs[0][2] is not None or not isinstance(defs[0][1], (ast.List, ast.Tuple)) or defs[0][0] not in body \
-                or name in self.params or any(isinstance(x, ast.Starred) for x in defs[0][1].elts):
-            return None
-        items = [(x, defs[0][0].lineno) for x in defs[0][1].elts]
-        top_appends = {}
-        for st in body:
-            if isinstance(st, ast.Expr) and isinstance(st.value, ast.Call) and isinstance(st.value.func, ast.Attribute) and \
-                    isinstance(st.value.func.value, ast.Name) and st.value.func.value.id == name and st.value.func.attr == 'append' and \
-                    len(st.value.args) == 1 and not st.value.keywords:
-                top_appends[id(st.value)] = st
-        # any other mutation / escape of the list makes the element sequence unknown
-        for n in ast.walk(self.fi.node):
-            if isinstance(n, ast.Call) and isinstance(n.func, ast.Attribute) and isinstance(n.func.value, ast.Name) and n.func.value.id == name:
-                if id(n) not in top_appends and n.func.attr not in ('index', 'count', 'copy'):
-                    return None
-            if isinstance(n, (ast.Subscript, ast.Attribute)) and isinstance(n.ctx, (ast.Store, ast.Del)) and isinstance(n.value, ast.Name) and n.value.id == name:
-                return None
-            if isinstance(n, ast.AugAssign) and isinstance(n.target, ast.Name) and n.target.id == name:
-                return None
-        for st in body:
-            if id(getattr(st, 'value', None)) in top_appends and st.lineno > defs[0][0].lineno and (at_line is None or st.lineno <= at_line):
-                items.append((st.value.args[0], st.lineno))
-            elif id(getattr(st, 'value', None)) in top_appends and st.lineno <= defs[0][0].lineno:
-                return None
-        return items
+    def _binop(self, e):
+        if isinstance(e.op, ast.Add):
+            l, r = self.eval(e.left), self.eval(e.right)
+            if isinstance(l, SList) and isinstance(r, SList) and l.kind == r.kind:
+                return SList(l.items + r.items, l.kind)
+            if isinstance(l, (LoopSeq, LoopCat)) and isinstance(r, (LoopSeq, LoopCat)):
+                return LoopCat((l.seqs if isinstance(l, LoopCat) else [l]) + (r.seqs if isinstance(r, LoopCat) else [r]))
+            if self.is_stringy(l) or self.is_stringy(r):
+                return Tmpl(self.to_parts(l) + self.to_parts(r))
+            return Ex(self.resolve(e))
+        if isinstance(e.op, ast.Mult):
+            l, r = self.eval(e.left), self.eval(e.right)
+            for a, b, bn in ((l, r, e.right), (r, l, e.left)):
+                if isinstance(a, Tmpl) and len(a.parts) == 1 and isinstance(a.parts[0], str) and isinstance(b, Ex):
+                    return Tmpl([Sym('repeat', unit=a.parts[0], count=b.node)])
+            return Ex(self.resolve(e))
+        if isinstance(e.op, ast.Mod):
+            l = self.eval(e.left)
+            if isinstance(l, Tmpl) and all(isinstance(p, str) for p in l.parts):
+                fmt = ''.join(l.parts)
+                r = self.eval(e.right)
+                if isinstance(r, SList) and r.kind == 'tuple':
+                    ops = [self.to_parts(x) for x in r.items]
+                elif isinstance(r, tuple):
+                    ops = [self.to_parts(x) for x in r]
+                elif isinstance(r, SDict):
+                    if r.comp is not None:
+                        return Tmpl([Sym('expr', expr=self.resolve(e))])
+                    out = []
+                    for p in re.split(r'(%%|%\([A-Za-z_][A-Za-z_0-9]*\)[srd])', fmt):
+                        if p == '%%':
+                            out.append('%')
+                        elif p.startswith('%(') and p[2:-2] in r.items:
+                            out.extend(self.to_parts(r.items[p[2:-2]]))
+                        elif '%' in p:
+                            return Tmpl([Sym('expr', expr=self.resolve(e))])
+                        elif p:
+                            out.append(p)
+                    return Tmpl(out)
+                else:
+                    ops = [self.to_parts(r)]
+                pieces = re.split(r'(%%|%[srd])', fmt)
+                out, i = [], 0
+                for p in pieces:
+                    if p in ('%s', '%r', '%d'):
+                        if i >= len(ops):
+                            return Tmpl([Sym('expr', expr=self.resolve(e))])
+                        out.extend(ops[i])
+                        i += 1
+                    elif p == '%%':
+                        out.append('%')
+                    elif p:
+                        if '%' in p:
+                            return Tmpl([Sym('expr', expr=self.resolve(e))])
+                        out.append(p)
+                if i != len(ops):
+                    return Tmpl([Sym('expr', expr=self.resolve(e))])
+                return Tmpl(out)
+            if isinstance(l, Tmpl):
+                return Tmpl([Sym('expr', expr=self.resolve(e))])
+            return Ex(self.resolve(e))
+        return Ex(self.resolve(e))
 
-    def _str_keyed_dict(self, d, at_line=None):
-        """{key: (value expr, line)} of a dict display / ``dict(k=v, ...)`` with constant string keys, looking through a
-        single-assignment local; None otherwise."""
-        ln = at_line
-        if isinstance(d, ast.Name):
-            vals = self.local_def(d.id)
-            if len(vals) != 1 or d.id in self.params:
-                return None
-            for n in ast.walk(self.fi.node):      # the dict must not be changed after it was written
-                if isinstance(n, ast.Call) and isinstance(n.func, ast.Attribute) and isinstance(n.func.value, ast.Name) and n.func.value.id == d.id \
-                        and n.func.attr not in ('get', 'keys', 'values', 'items', 'copy'):
-                    return None
-                if isinstance(n, ast.Subscript) and isinstance(n.ctx, (ast.Store, ast.Del)) and isinstance(n.value, ast.Name) and n.value.id == d.id:
-                    return None
-            ln = vals[0][0].lineno
-            d = vals[0][1]
-        if isinstance(d, ast.Dict):
-            if not all(isinstance(k, ast.Constant) and isinstance(k.value, str) for k in d.keys):
-                return None
-            return dict((k.value, (v, ln)) for k, v in zip(d.keys, d.values))
-        if isinstance(d, ast.Call) and isinstance(d.func, ast.Name) and d.func.id == 'dict' and not d.args and all(k.arg for k in d.keywords):
-            return dict((k.arg, (k.value, ln)) for k in d.keywords)
+    # -- collections -------------------------------------------------------------------------------------------------
+    def as_coll(self, v, node=None):
+        """View a value as a collection to iterate."""
+        if isinstance(v, Coll):
+            return v
+        if isinstance(v, Ex):
+            n = v.node
+            ops = []
+            # look through sorted(...) / list(...) wrappers
+            while isinstance(n, ast.Call) and isinstance(n.func, ast.Name) and n.func.id in _WRAPPERS and n.args:
+                if n.func.id in _REORDER:
+                    ops.append(n.func.id)
+                n = n.args[0]
+            return Coll(norm(n), n, Elem(n, norm(n)), order_ops=ops)
+        if isinstance(v, SDict) and v.comp is not None:
+            # iterating a dict yields its keys
+            c = v.comp
+            return Coll(c.base_text, c.base_expr, c.elem[0] if isinstance(c.elem, tuple) else c.elem, c.filters, None, c.pending,
+                        c.order_ops)
         return None
 
-    # -- iterables ---------------------------------------------------------------
-    def base_of(self, it, at_line=None, depth=0):
-        """Describe an iterable: ('base', text, expr) after looking through sorted/list/tuple and local aliases;
-        for pair-shaped iterables also the element shape."""
-        shape = self.shape_of(it, at_line, depth)
-        return shape
+    def flush(self, c):
+        """The collection is materialised here: its membership filters are evaluated now."""
+        if isinstance(c, Coll) and c.pending:
+            self.events.extend(c.pending)
+            c.pending = []
 
-    def shape_of(self, it, at_line=None, depth=0):
-        """-> (base_expr_text, base_expr, elem) where elem is Elem or tuple of Elem."""
-        if depth > 12:
-            return (norm(it), it, Elem(it, norm(it)))
-        if isinstance(it, ast.Call) and isinstance(it.func, ast.Name) and it.func.id in ('sorted', 'list', 'tuple', 'set', 'reversed', 'iter') \
-                and it.args:
-            return self.shape_of(it.args[0], at_line, depth + 1)
-        if isinstance(it, ast.Call) and isinstance(it.func, ast.Attribute) and it.func.attr == 'items' and not it.args:
-            inner = it.func.value
-            d = inner
-            if isinstance(inner, ast.Name):
-                r = self.resolve_local(inner.id, at_line)
-                if r is not None:
-                    d = r[1]
-                    at_line = r[0].lineno
-            pair = self._dict_pair_shape(d, at_line, depth + 1)
-            if pair is not None:
-                return pair
-            return (norm(it), it, Elem(it, norm(it)))
-        if isinstance(it, ast.Name):
-            if hasattr(self, 'arg_map') and it.id in self.arg_map:
-                return self.caller.shape_of(self.arg_map[it.id], self.caller_line, depth + 1)
-            r = self.resolve_local(it.id, at_line)
-            if r is not None:
-                return self.shape_of(r[1], r[0].lineno, depth + 1)
-        return (norm(it), it, Elem(it, norm(it)))
-
-    def _dict_pair_shape(self, d, at_line, depth):
-        """dict([(a, a) for a in X]) / {a: a for a in X} / dict(zip(X, X)) -> (base, expr, (Elem k, Elem v))."""
-        comp = None
-        if isinstance(d, ast.Call) and isinstance(d.func, ast.Name) and d.func.id == 'dict' and len(d.args) == 1 and not d.keywords:
-            a = d.args[0]
-            if isinstance(a, (ast.ListComp, ast.GeneratorExp)) and isinstance(a.elt, ast.Tuple) and len(a.elt.elts) == 2:
-                comp, k, v = a, a.elt.elts[0], a.elt.elts[1]
-        if isinstance(d, ast.DictComp):
-            comp, k, v = d, d.key, d.value
-        if comp is None or len(comp.generators) != 1 or not isinstance(comp.generators[0].target, ast.Name):
+    def _comp(self, comp, pair=None, lazy=False):
+        if len(comp.generators) != 1 or comp.generators[0].is_async:
             return None
         g = comp.generators[0]
-        base_text, base_expr, el = self.shape_of(g.iter, at_line, depth + 1)
-        var = g.target.id
-
-        def side(x, idx):
-            if isinstance(x, ast.Name) and x.id == var and isinstance(el, Elem):
-                return Elem(el.base_expr, el.base_text, None)
-            return Elem(x, 'f(%s):%s' % (base_text, norm(x)), idx)
-        return (base_text, base_expr, (side(k, 0), side(v, 1)))
-
-    def _join_comp(self, sep, comp, at_line, depth):
-        if len(comp.generators) != 1:
-            return Sym('expr', expr=comp)
-        g = comp.generators[0]
-        base_text, base_expr, el = self.shape_of(g.iter, at_line, depth + 1)
+        src = self.as_coll(self.eval(g.iter), g.iter)
+        if src is None:
+            return None
+        if not lazy:
+            self.flush(src)
+        if src.elt_parts is not None:
+            el = Tmpl(src.elt_parts)
+        else:
+            el = src.elem
         saved = dict(self.comp_env)
         try:
             if isinstance(g.target, ast.Name):
                 self.comp_env[g.target.id] = el
-            elif isinstance(g.target, ast.Tuple) and isinstance(el, tuple) and len(el) == len(g.target.elts):
+            elif isinstance(g.target, (ast.Tuple, ast.List)) and isinstance(el, tuple) and len(el) == len(g.target.elts):
                 for t, x in zip(g.target.elts, el):
                     if isinstance(t, ast.Name):
                         self.comp_env[t.id] = x
-            elt = self.ev(comp.elt, at_line, depth + 1)
-            filters = []
+                    else:
+                        return None
+            else:
+                return None
+            filters, events = [], []
             for c in g.ifs:
-                filters.append(self._filter_desc(c, at_line, depth))
+                fd = self._filter_desc(c)
+                filters.append(fd)
+                events.append({'kind': 'filter', 'container': fd[2], 'op': fd[0], 'node': c, 'owner': self.fi.qualname})
+            if pair is not None:
+                k, v = self.eval(pair[0]), self.eval(pair[1])
+
+                def side(x, expr, idx):
+                    if isinstance(x, Elem):
+                        return x
+                    return Elem(expr, 'f(%s):%s' % (src.base_text, norm(expr)), idx)
+                elem = (side(k, pair[0], 0), side(v, pair[1], 1))
+                elt_parts = None
+            else:
+                val = self.eval(comp.elt)
+                if isinstance(val, Elem) and val is el:
+                    elem, elt_parts = src.elem, src.elt_parts
+                elif isinstance(val, tuple) and val is el:
+                    elem, elt_parts = src.elem, None
+                elif self.is_stringy(val):
+                    elem, elt_parts = src.elem, self.to_parts(val)
+                elif isinstance(val, SList) and val.kind == 'tuple' and len(val.items) == 2 and all(isinstance(x, Elem) for x in val.items):
+                    elem, elt_parts = (val.items[0], val.items[1]), None
+                else:
+                    ex = self.resolve(comp.elt)
+                    elem, elt_parts = Elem(ex, 'f(%s):%s' % (src.base_text, norm(ex))), None
         finally:
             self.comp_env = saved
-        return Sym('join', sep=sep, elt=elt, iter=g.iter, filters=filters, base=(base_text, base_expr, el))
+        out = Coll(src.base_text, src.base_expr, elem, src.filters + filters, elt_parts,
+                   pending=(src.pending + events) if lazy else [],
+                   order_ops=src.order_ops + (['set'] if isinstance(comp, ast.SetComp) else []))
+        if not lazy:
+            self.events.extend(events)
+        return out
 
-    def _filter_desc(self, c, at_line, depth):
-        """Describe a comprehension filter ``<elem part> in <name>`` -> ('in', Elem-or-None, container text, raw)."""
+    def _filter_desc(self, c):
+        """``<elem> in <container>`` -> ('in' | 'notin', Elem or None, container text, node)."""
         if isinstance(c, ast.Compare) and len(c.ops) == 1 and isinstance(c.ops[0], (ast.In, ast.NotIn)):
-            l = self.ev(c.left, at_line, depth + 1)
-            who = l[0] if len(l) == 1 and isinstance(l[0], Elem) else None
-            return ('in' if isinstance(c.ops[0], ast.In) else 'notin', who, norm(c.comparators[0]), c)
-        return ('other', None, norm(c), c)
+            l = self.eval(c.left)
+            who = l if isinstance(l, Elem) else None
+            return ('in' if isinstance(c.ops[0], ast.In) else 'notin', who, norm(self.resolve(c.comparators[0])), c)
+        return ('other', None, norm(self.resolve(c)), c)
+
+    # -- calls -----------------------------------------------------------------------------------------------------------
+    def _call(self, e):
+        f = e.func
+        if isinstance(f, ast.Attribute):
+            if f.attr == 'join' and len(e.args) == 1 and not e.keywords:
+                sep = self.eval(f.value)
+                if isinstance(sep, Tmpl) and all(isinstance(p, str) for p in sep.parts):
+                    return self._join(''.join(sep.parts), e.args[0], e)
+            if f.attr == 'format':
+                t = self.eval(f.value)
+                if isinstance(t, Tmpl) and all(isinstance(p, str) for p in t.parts):
+                    return self._format(''.join(t.parts), e)
+                if isinstance(t, Tmpl):
+                    return Tmpl([Sym('expr', expr=self.resolve(e))])
+            if f.attr == 'items' and not e.args:
+                v = self.eval(f.value)
+                if isinstance(v, SDict) and v.comp is not None:
+                    return v.comp
+                if isinstance(v, Ex):
+                    n = self.resolve(e)
+                    return Coll(norm(n), n, (Elem(n, norm(n), 0), Elem(n, norm(n), 1)))
+            if f.attr in ('keys', 'copy') and not e.args:
+                v = self.eval(f.value)
+                if isinstance(v, SDict):
+                    return v if f.attr == 'copy' else (self.as_coll(v) or Ex(self.resolve(e)))
+            if f.attr in ('strip', 'rstrip', 'lstrip', 'encode', 'decode', 'lower', 'upper', 'replace') :
+                v = self.eval(f.value)
+                if self.is_stringy(v):
+                    return Tmpl([Sym('expr', expr=self.resolve(e))])
+            return Ex(self.resolve(e))
+        if isinstance(f, ast.Name):
+            if f.id in _WRAPPERS and len(e.args) >= 1:
+                v = self.eval(e.args[0])
+                if isinstance(v, SDict) and v.comp is not None:
+                    v = self.as_coll(v)
+                if isinstance(v, Coll):
+                    self.flush(v)
+                    return Coll(v.base_text, v.base_expr, v.elem, v.filters, v.elt_parts,
+                                order_ops=v.order_ops + ([f.id] if f.id in _REORDER else []))
+                if isinstance(v, SList) and f.id in ('list', 'tuple'):
+                    return SList(v.items, 'list' if f.id == 'list' else 'tuple')
+                if isinstance(v, SList) and f.id == 'reversed':
+                    return SList(list(reversed(v.items)), v.kind)
+                if isinstance(v, LoopSeq) and f.id in ('list', 'tuple', 'iter', 'reversed'):
+                    return LoopSeq(v.loop, v.items, (not v.rev) if f.id == 'reversed' else v.rev)
+                if isinstance(v, Ex):
+                    return self.as_coll(Ex(self.resolve(e)))
+                return Ex(self.resolve(e))
+            if f.id == 'dict':
+                if not e.args and all(k.arg is not None for k in e.keywords):
+                    return SDict(dict((k.arg, self.eval(k.value)) for k in e.keywords))
+                if len(e.args) == 1:
+                    base = self.eval(e.args[0])
+                    if isinstance(base, SDict) and base.comp is None and all(k.arg is not None for k in e.keywords):
+                        out = dict(base.items)
+                        out.update((k.arg, self.eval(k.value)) for k in e.keywords)
+                        return SDict(out)
+                    if isinstance(base, SDict) and not e.keywords:
+                        return SDict(base.items, base.comp)
+                    if isinstance(base, Coll) and isinstance(base.elem, tuple) and not e.keywords:
+                        return SDict(comp=base)
+                    # dict(zip(X, X))
+                    a = e.args[0]
+                    if isinstance(a, ast.Call) and isinstance(a.func, ast.Name) and a.func.id == 'zip' and len(a.args) == 2 and not e.keywords:
+                        c1, c2 = self.as_coll(self.eval(a.args[0])), self.as_coll(self.eval(a.args[1]))
+                        if c1 is not None and c2 is not None and c1.base_text == c2.base_text and not c1.filters and not c2.filters \
+                                and isinstance(c1.elem, Elem) and c1.elt_parts is None and c2.elt_parts is None:
+                            return SDict(comp=Coll(c1.base_text, c1.base_expr, (c1.elem, c1.elem)))
+                return Ex(self.resolve(e))
+            if f.id in ('str', 'repr') and len(e.args) == 1 and not e.keywords:
+                v = self.eval(e.args[0])
+                if self.is_stringy(v) and f.id == 'str':
+                    return v
+                return Tmpl(self.to_parts(v)) if isinstance(v, Ex) else Tmpl([Sym('expr', expr=self.resolve(e))])
+            if f.id in self.WATCH:
+                args = [self.eval(a) for a in e.args]
+                kw = dict((k.arg, self.eval(k.value)) for k in e.keywords if k.arg)
+                self.sinks.append({'name': f.id, 'node': e, 'args': args, 'kw': kw, 'owner': self.fi.qualname})
+                return Ex(self.resolve(e))
+            if f.id == self.root.fi.name and self.root.fi.name in self.mod.functions and self.mod is self.root.mod:
+                ps = self.root.fi.params()
+                argmap = dict(zip(ps, [norm(self.resolve(a)) for a in e.args if not isinstance(a, ast.Starred)]))
+                argmap.update((k.arg, norm(self.resolve(k.value))) for k in e.keywords if k.arg)
+                self.events.append({'kind': 'rec', 'node': e, 'argmap': argmap, 'owner': self.fi.qualname})
+                return Tmpl([Sym('rec', call=e, argmap=argmap)])
+            callee = self.mod.functions.get(f.id)
+            if callee is not None and self.depth < 3 and not any(isinstance(a, ast.Starred) for a in e.args) and \
+                    not any(k.arg is None for k in e.keywords):
+                r = self._exec_callee(callee, e)
+                if r is not None:
+                    return r
+        return Ex(self.resolve(e))
+
+    def _exec_callee(self, callee, call):
+        a = callee.node.args
+        if a.vararg or a.kwarg or a.posonlyargs:
+            return None
+        if any(isinstance(n, (ast.Yield, ast.YieldFrom, ast.For, ast.While, ast.Try, ast.FunctionDef, ast.Lambda)) for n in ast.walk(callee.node)
+               if n is not callee.node):
+            return None
+        names = [x.arg for x in a.args]
+        env = {}
+        if len(call.args) > len(names):
+            return None
+        for n, v in zip(names, call.args):
+            env[n] = self.eval(v)
+        kwonly = [x.arg for x in a.kwonlyargs]
+        for k in call.keywords:
+            if k.arg in env or k.arg not in names + kwonly:
+                return None
+            env[k.arg] = self.eval(k.value)
+        sub = TemplateEval(self.repo, callee, env=env, parent=self)
+        defaults = dict(zip(names[len(names) - len(a.defaults):], a.defaults))
+        defaults.update((n, d) for n, d in zip(kwonly, a.kw_defaults) if d is not None)
+        for n in names + kwonly:
+            if n not in env:
+                if n not in defaults:
+                    return None
+                sub.env[n] = sub.eval(defaults[n]) if isinstance(defaults[n], ast.Constant) else Ex(defaults[n])
+        ev0, sk0 = len(self.events), len(self.sinks)
+        try:
+            sub.run()
+        except AnalysisError:
+            del self.events[ev0:]
+            del self.sinks[sk0:]
+            return None
+        if sub.guards or len(sub.returns) != 1:
+            del self.events[ev0:]
+            del self.sinks[sk0:]
+            return None
+        r = sub.returns[0][1]
+        if isinstance(r, Ex):
+            # a value we could only restate in terms of the helper's internals: keep the call as written
+            return None
+        return r
+
+    def _join(self, sep, arg, call):
+        v = self.eval(arg)
+        if isinstance(v, (LoopSeq, LoopCat)):
+            if sep != '':
+                raise AnalysisError('%s: loop-built strings joined with a separator' % self.fi.qualname)
+            return Tmpl([Sym('loop', seq=q) for q in (v.seqs if isinstance(v, LoopCat) else [v])])
+        if isinstance(v, SList):
+            out = []
+            for i, x in enumerate(v.items):
+                if i and sep:
+                    out.append(sep)
+                out.extend(self.to_parts(x))
+            return Tmpl(out)
+        c = self.as_coll(v, arg)
+        if c is None:
+            return Tmpl([Sym('expr', expr=self.resolve(call))])
+        self.flush(c)
+        return Tmpl([Sym('join', sep=sep, elt=c.elt_parts, iter=c.base_expr, filters=list(c.filters),
+                         base=(c.base_text, c.base_expr, c.elem), node=call, order_ops=list(c.order_ops))])
+
+    def _format(self, fmt, call):
+        pos = []
+        for a in call.args:
+            if isinstance(a, ast.Starred):
+                v = self.eval(a.value)
+                if isinstance(v, SList):
+                    pos.extend(self.to_parts(x) for x in v.items)
+                    continue
+                return Tmpl([Sym('expr', expr=self.resolve(call))])
+            pos.append(self.to_parts(self.eval(a)))
+        kw = {}
+        for k in call.keywords:
+            if k.arg is None:
+                v = self.eval(k.value)
+                if isinstance(v, SDict) and v.comp is None:
+                    for kk, vv in v.items.items():
+                        kw[kk] = self.to_parts(vv)
+                    continue
+                return Tmpl([Sym('expr', expr=self.resolve(call))])
+            kw[k.arg] = self.to_parts(self.eval(k.value))
+        out, auto = [], 0
+        for p in _FMT_FIELD.split(fmt):
+            if p == '{{':
+                out.append('{')
+            elif p == '}}':
+                out.append('}')
+            elif len(p) >= 2 and p[0] == '{' and p[-1] == '}':
+                field = p[1:-1]
+                name, _, spec = field.partition(':')
+                name, _, conv = name.partition('!')
+                if spec or '.' in name or '[' in name:
+                    out.append(Sym('expr', expr=ast.Constant(value=p)))
+                    continue
+                if name == '':
+                    idx = auto
+                    auto += 1
+                    val = pos[idx] if idx < len(pos) else None
+                elif name.isdigit():
+                    val = pos[int(name)] if int(name) < len(pos) else None
+                else:
+                    val = kw.get(name)
+                if val is None:
+                    return Tmpl([Sym('expr', expr=self.resolve(call))])
+                out.extend(val)
+            elif p:
+                out.append(p)
+        return Tmpl(out)
 
 
 # ---- rendering ---------------------------------------------------------------------
